@@ -4,7 +4,7 @@ from sim.util import derive_rng, pick, wpick
 
 LEVEL = 'exploration'
 BUDGET = {
-    'quick': dict(runs=150, wall=420, timeout=300, det=4, minimise=40),
+    'quick': dict(runs=150, wall=420, timeout=600, det=4, minimise=40),
     'thorough': dict(runs=2500, wall=3000, timeout=600, det=16, minimise=200),
 }
 RULE = ('Each run = job 1 (Tearfree Sketchy trained for a few ticks on 1-6 '
